@@ -33,6 +33,19 @@ Clauses:
   C11.anova_func.wf            ANOVA_func / anova_func on constant data, zero data without rounding
   C11.anova_func.zero_data     KNOWN DEFECT (same root cause via truncate): anova_func of zero data with rounding
   C11.func.wf                  func_int / func_gets (Chebyshev and sine) of the families
+
+Parameter-coverage additions (audit of families x routines x flags):
+  families pad0 (rank 2 embedded in larger bonds by zero blocks), dupcol (every bond carries its columns twice),
+  tiny / huge (norm about 1e-40 / 1e+40) run through truncate (all 8 flag combinations), orthogonalize, scalars, show,
+  accuracy (finite and >= 0 against a zero first argument), arith, tt_to_qtt, func
+  C11.truncate.zero_flags      exactly-zero tensors x all 8 flag combinations x (e, rank cap) x shapes incl. mode size 1, d = 2, d = 4
+  C11.tt_to_qtt.zero_flags     tt_to_qtt(e, r) of exactly-zero tensors (incl. cancellation, q = 1) and back
+  C11.add_many.zero_flags      add_many(e, r, trunc_freq) with exactly-zero partial sums (X + (-X), zero tensors, 0. scalars)
+  C11.cross.degenerate         cross of one-hot / zero-slice / +-1 / single-active-mode oracles under every stop criterion
+                               (nswp = 0, nswp, e, validation data, m budgets that interrupt a sweep at every core)
+  C11.als.flags                als with lamb=None, weights, allow_skip_cores with unsampled slices, update_sol, rank-adaptive
+                               with lamb=None / weights / r_add = 1 / allow_swap, on zero / constant / one-hot / zero-slice data
+  C11.anova.class_flags        ANOVA.cores(rel_noise) twice on one object, r above the mode sizes, constant and zero data
 """
 import contextlib, io
 import numpy as np
@@ -41,13 +54,18 @@ from rtc.api import clause, PASS, FAIL, TRIVIAL, SKIP, check
 from rtc import gen
 
 BUDGET = (100, 800)
-BOUNDS = ('shapes gen.shapes(d<=4, n<=4) incl. mode size 1 and d=2; 13 families (7 non-zero, 6 exactly-zero); '
+BOUNDS = ('shapes gen.shapes(d<=4, n<=4) incl. mode size 1 and d=2; 17 families (11 non-zero incl. zero-padded, duplicated bonds, norm 1e-40 / 1e+40; 6 exactly-zero); '
           'ranks 1..4 (+3 over-ranked); truncate: e in {1e-10,1e-2,10}, cap in {1e12,1,2}, all 8 flag combinations; '
-          'all pivots; qtt: d<=3, q<=3; cross/als/anova: d=2..3, zero and constant data, full / repeated / sparse samples')
+          'all pivots; qtt: d<=4, q<=3; cross/als/anova: d=2..4, zero / constant / one-hot / zero-slice data, full / repeated / sparse samples, '
+          'every stop criterion of cross (6 budgets m), 9 option sets of als, zero tensors x all truncate flags x 4 (e, cap)')
 
 NONZERO = ('gauss', 'int', 'rank1', 'over', 'rankdef', 'const', 'cancel')
 ZERO = ('zero_all', 'zero_first', 'zero_mid', 'zero_last', 'const0', 'mul0')
 FAMS = NONZERO + ZERO
+# parameter-coverage additions (non-zero): pad0 = a rank-2 tensor embedded in bonds of size r by zero blocks (exact
+# zero singular values next to non-zero ones, no zero core); tiny / huge = generic tensors of norm about 1e-40 / 1e+40
+# (well-formedness is scale-free: catches thresholds that are absolute); dupcol = every bond carries each column twice
+EXTRA = ('pad0', 'tiny', 'huge', 'dupcol')
 
 
 def _tt(shape, fam, r, seed):
@@ -65,6 +83,19 @@ def _tt(shape, fam, r, seed):
         return [np.array(np.broadcast_to(G, (rr[k], G.shape[1], rr[k + 1]))) for k, G in enumerate(Y)]
     if fam == 'const':
         return gen.tt(shape, r, seed, 'ones', scale=1.5)
+    if fam == 'pad0':
+        Y = gen.tt(shape, min(2, r), seed, 'gauss')
+        rr = [1] + [max(2, r) + 1] * (d - 1) + [1]
+        Z = [np.zeros((rr[k], shape[k], rr[k + 1])) for k in range(d)]
+        for G, H in zip(Y, Z):
+            H[:G.shape[0], :, :G.shape[2]] = G
+        return Z
+    if fam in ('tiny', 'huge'):
+        return gen.tt(shape, r, seed, 'gauss', scale=(1e-40 if fam == "tiny" else 1e40) ** (1. / d))
+    if fam == 'dupcol':
+        Y = gen.tt(shape, r, seed, 'gauss')
+        return [np.concatenate([G, G], axis=2) if k < d - 1 else G for k, G in
+                enumerate([np.concatenate([0.5 * G, 0.5 * G], axis=0) if k > 0 else G for k, G in enumerate(Y)])]
     if fam == 'cancel':
         X = gen.tt(shape, r, seed, 'int')
         return teneva.sub(X, X)
@@ -139,6 +170,16 @@ def truncate_zero_cancel(shape, r, seed, e, use_stab):
     """truncate (default eigen mode) of X - X with integer cores (exactly zero by cancellation, no zero core;
     the orthogonalisation may or may not leave an exactly-zero last core) returns a well-formed finite tensor."""
     Y, msg = _truncate_case(shape, 'cancel', r, seed, e, 1.E+12, True, use_stab, True)
+    return FAIL(msg) if msg else PASS
+
+
+@clause('C11.truncate.zero_flags', funcs=('transformation.truncate', 'svd.matrix_svd', 'svd.matrix_skeleton'))
+def truncate_zero_flags(shape, fam, r, seed, e, rcap, orth, use_stab, is_eigh):
+    """truncate of an exactly-zero tensor (all zero families incl. exact cancellation) for every flag combination,
+    accuracy and rank cap, also with modes of size 1, d = 2 and d = 4: well-formed and finite."""
+    Y, msg = _truncate_case(shape, fam, r, seed, e, rcap, orth, use_stab, is_eigh)
+    if not _is_zero_tensor(Y):
+        return SKIP('not an exactly-zero tensor')
     return FAIL(msg) if msg else PASS
 
 
@@ -272,6 +313,19 @@ def tt_to_qtt_zero(d, q, fam, r, seed):
     return FAIL(msg) if msg else PASS
 
 
+@clause('C11.tt_to_qtt.zero_flags', funcs=('act_one.tt_to_qtt', 'core.core_tt_to_qtt', 'svd.matrix_svd'))
+def tt_to_qtt_zero_flags(d, q, fam, r, seed, e, rcap):
+    """tt_to_qtt with explicit accuracy / rank cap of a tensor with an exactly-zero core (or zero by cancellation),
+    and the way back through qtt_to_tt: well-formed and finite."""
+    shape = [2 ** q] * d
+    Y = _tt(shape, fam, r, seed)
+    if not _is_zero_tensor(Y):
+        return SKIP('not an exactly-zero tensor')
+    Z = teneva.tt_to_qtt(Y, e, rcap)
+    msg = _bad(Z, [2] * (d * q), f'tt_to_qtt(e={e}, r={rcap})') or _bad(teneva.qtt_to_tt(Z, q), shape, 'qtt_to_tt(tt_to_qtt)')
+    return FAIL(msg) if msg else PASS
+
+
 @clause('C11.qtt_to_tt.wf', funcs=('act_one.qtt_to_tt', 'core.core_qtt_to_tt'))
 def qtt_to_tt_wf(d, q, fam, r, seed):
     """qtt_to_tt of any family member of shape [2]^(d*q) is a well-formed finite tensor of shape [2^q]^d."""
@@ -336,7 +390,7 @@ def accuracy_sentinel(shape, fam, zfam, r, seed):
     v = teneva.accuracy(Y, Z)
     if not (_finite_scalar(v) and v == -1):
         return FAIL(f'accuracy({fam}, {zfam}) = {v!r}, expected the sentinel -1')
-    if fam in NONZERO and fam != 'cancel':
+    if fam in NONZERO + EXTRA and fam != 'cancel':
         w = teneva.accuracy(Z, Y)
         if not (_finite_scalar(w) and w >= 0):
             return FAIL(f'accuracy({zfam}, {fam}) = {w!r}')
@@ -369,6 +423,20 @@ def add_many_zero(shape, fams, r, seed, trunc_freq):
     """add_many of exactly-zero tensors is a well-formed finite tensor."""
     S = _summands(shape, fams, r, seed)
     msg = _bad(teneva.add_many(S, trunc_freq=trunc_freq), shape, f'add_many({fams})')
+    return FAIL(msg) if msg else PASS
+
+
+@clause('C11.add_many.zero_flags', funcs=('act_many.add_many', 'transformation.truncate', 'svd.matrix_svd'))
+def add_many_zero_flags(shape, fams, r, seed, e, rcap, trunc_freq):
+    """add_many with explicit accuracy / rank cap / truncation frequency of summands whose partial sums ARE exactly
+    zero at some point (zero tensors, X + (-X), 0. scalars): well-formed and finite."""
+    S = []
+    for j, f in enumerate(fams):
+        if f == 'neg_prev':
+            S.append(teneva.mul(S[-1], -1.))
+        else:
+            S.append(float(f) if isinstance(f, (int, float)) else _tt(shape, f, r, seed + j))
+    msg = _bad(teneva.add_many(S, e, rcap, trunc_freq), shape, f'add_many({fams}, e={e}, r={rcap}, trunc_freq={trunc_freq})')
     return FAIL(msg) if msg else PASS
 
 
@@ -438,6 +506,46 @@ def cross_wf(shape, c, r0, dr_min, dr_max, nswp, seed, with_cache):
     return PASS
 
 
+def _oracle(shape, kind, seed):
+    """degenerate oracles for cross / data for als: 'onehot' (one non-zero entry), 'zero_slice' (rank-1, one index of
+    every mode gives zero), 'sign' (entries +-1 of a rank-1 tensor), 'axis' (depends on the first mode only)"""
+    g = gen.rng('C11.oracle', shape, kind, seed)
+    if kind == 'onehot':
+        hot = np.array([int(g.integers(n)) for n in shape])
+        return lambda I: 3. * np.all(np.asarray(I) == hot, axis=1)
+    vs = [g.normal(size=n) for n in shape]
+    if kind == 'zero_slice':
+        for v in vs:
+            v[int(g.integers(len(v)))] = 0.
+    elif kind == 'sign':
+        vs = [np.sign(v) + (v == 0) for v in vs]
+    elif kind == 'axis':
+        vs = [vs[0]] + [np.ones(n) for n in shape[1:]]
+    return lambda I: np.prod([v[np.asarray(I)[:, k]] for k, v in enumerate(vs)], axis=0)
+
+
+@clause('C11.cross.degenerate', funcs=('cross.cross', 'utils._maxvol', 'maxvol.maxvol', 'maxvol.maxvol_rect'))
+def cross_degenerate(shape, kind, stop, r0, dr_min, dr_max, seed, with_cache, budget=None):
+    """cross of degenerate non-constant oracles (one-hot, rank-1 with zero slices, +-1 entries, one active mode)
+    under every stop criterion (nswp = 0 pre-iteration only, nswp, m budget - a list of budgets so that the
+    algorithm is interrupted at different cores in the middle of a sweep, with growing ranks -, e, validation
+    data): well-formed finite tensor, finite info values."""
+    f = _oracle(shape, kind, seed)
+    Y0 = gen.tt(shape, r0, seed, 'gauss')
+    info = {}
+    I_vld = gen.all_indices(shape)
+    kw = {'nswp0': dict(nswp=0), 'nswp': dict(nswp=3), 'm': dict(m=budget or 3 * int(np.sum(shape)) + 5),
+          'e': dict(e=1e-6, nswp=6), 'vld': dict(I_vld=I_vld, y_vld=f(I_vld) + 3.5, e_vld=1e-3, nswp=4)}[stop]      # reference data never all zero
+    Y = teneva.cross(f, Y0, dr_min=dr_min, dr_max=dr_max, info=info, cache={} if with_cache else None, log=False, **kw)
+    msg = _bad(Y, shape, f'cross({kind}, {stop})')
+    if msg:
+        return FAIL(msg)
+    for k in ('e', 'e_vld', 'r'):
+        if not _finite_scalar(info[k]):
+            return FAIL(f'info[{k}] = {info[k]!r}')
+    return PASS
+
+
 def _samples(shape, how, seed):
     g = gen.rng('C11.samples', shape, how, seed)
     I = gen.all_indices(shape)
@@ -471,6 +579,66 @@ def als_wf(shape, c, r0, how, adaptive, nswp, seed):
     for k in ('e', 'e_vld', 'r'):
         if not _finite_scalar(info[k]):
             return FAIL(f'info[{k}] = {info[k]!r}')
+    return PASS
+
+
+@clause('C11.als.flags', funcs=('als.als',))
+def als_flags(shape, kind, variant, how, seed):
+    """als on zero / constant / one-hot / zero-slice data with repeated samples under the non-default options:
+    lamb=None (plain least squares on rank-deficient systems), weights w, w + lamb, allow_skip_cores with slices
+    that have no sample, rank-adaptive with lamb=None / weights / r_add=1 / allow_swap, update_sol."""
+    I = _samples(shape, how, seed)
+    if kind in ('zero', 'const'):
+        y = np.full(len(I), 0. if kind == 'zero' else -2.5)
+    else:
+        y = _oracle(shape, kind, seed)(I)
+    Y0 = gen.tt(shape, 2, seed, 'gauss')
+    w = 0.5 + gen.rng('C11.als.w', seed).uniform(size=len(I))
+    kw = {'lamb_none': dict(lamb=None), 'w': dict(w=w, lamb=None), 'w_lamb': dict(w=w, lamb=1e-2),
+          'skip_cores': dict(allow_skip_cores=True), 'ad_lamb_none': dict(r=3, lamb=None),
+          'ad_w': dict(r=3, w=w, lamb=None), 'ad_r_add': dict(r=4, r_add=1, e_adap=0.),
+          'ad_swap': dict(r=3, allow_swap=True, I_vld=I, y_vld=y + 1.), 'update_sol': dict(update_sol=True)}[variant]
+    if variant == 'skip_cores':
+        keep = np.ones(len(I), dtype=bool)
+        for k, n in enumerate(shape):
+            if n > 1:
+                keep &= I[:, k] != n - 1        # the last index of every mode is never sampled
+        I, y = I[keep], y[keep]
+        if len(I) == 0:
+            return SKIP('no sample left')
+    info = {}
+    try:
+        with contextlib.redirect_stdout(io.StringIO()):
+            Y = teneva.als(I, y, Y0, nswp=2, info=info, log=False, **kw)
+    except IndexError as e:
+        if variant != 'ad_swap':
+            raise
+        # reported separately (not a degeneracy issue, generic data hit it too): after two swaps that do not commute
+        # als permutes the validation indices in the wrong order and get_many indexes a mode out of range
+        return SKIP(f'experimental allow_swap: wrong permutation of the validation indices after two swaps ({e})')
+    shp = list(shape)
+    if variant == 'ad_swap' and 'rearrange' in info:
+        shp = [shape[k] for k in info['rearrange']]
+    msg = _bad(Y, shp, f'als({kind}, {variant})')
+    if msg:
+        return FAIL(msg)
+    for k in ('e', 'e_vld', 'r'):
+        if not _finite_scalar(info[k]):
+            return FAIL(f'info[{k}] = {info[k]!r}')
+    return PASS
+
+
+@clause('C11.anova.class_flags', funcs=('anova.ANOVA', 'anova.anova', 'act_many.add_many'))
+def anova_class_flags(shape, c, order, r, rel_noise, how, seed):
+    """ANOVA(...).cores with rel_noise (noise relative to max |y|: exactly 0 for zero data), called twice on the
+    same object, and ranks above the mode sizes, on constant / zero data: well-formed and finite."""
+    I = _samples(shape, how, seed)
+    y = np.full(len(I), float(c))
+    A = teneva.ANOVA(I, y, order, seed=seed)
+    for rep in range(2):
+        msg = _bad(A.cores(r, rel_noise=rel_noise), shape, f'ANOVA(y={c}, order={order}).cores(r={r}, rel_noise={rel_noise}) #{rep}')
+        if msg:
+            return FAIL(msg)
     return PASS
 
 
@@ -670,6 +838,77 @@ def cases(tier, seed):
         for fam in FAMS:
             for kind in ('cheb', 'sin'):
                 yield 'C11.func.wf', dict(shape=shape, fam=fam, r=2, seed=15, kind=kind, m=2 + len(fam) % 4)
+    # ---- parameter-coverage additions ------------------------------------------------------------------------
+    xshapes = shapes if big else [[2, 2], [4, 3], [3, 1, 2], [2, 3, 2], [1, 3, 3, 3], [2, 2, 2, 2], [1, 1, 1]]
+    j = 0
+    for shape in xshapes:
+        for fam in EXTRA:
+            for r in (2, 4) if big else (3,):
+                for (o, st, eg) in flags:
+                    for (e, rc) in (ecs if big else [ecs[j % 4]]):
+                        yield 'C11.truncate.wf', dict(shape=shape, fam=fam, r=r, seed=1 + j % 3, e=e, rcap=rc, orth=o,
+                                                      use_stab=st, is_eigh=eg)
+                    j += 1
+                yield 'C11.orthogonalize.wf', dict(shape=shape, fam=fam, r=r, seed=2)
+                yield 'C11.scalars.finite', dict(shape=shape, fam=fam, r=r, seed=3)
+                yield 'C11.show.accepts', dict(shape=shape, fam=fam, r=r, seed=4, bad='ok')
+            for zf in ('zero_all', 'zero_last', 'const0'):
+                yield 'C11.accuracy.sentinel', dict(shape=shape, fam=fam, zfam=zf, r=2, seed=5)
+            for f2 in (('gauss', 'zero_all', 'rankdef') + EXTRA) if big else ('gauss', fam):
+                yield 'C11.arith.wf', dict(shape=shape, fam1=fam, fam2=f2, r=2, seed=6)
+                if big:
+                    yield 'C11.arith.wf', dict(shape=shape, fam1=f2, fam2=fam, r=3, seed=6)
+            if min(shape) >= 2:
+                for kind in ('cheb', 'sin'):
+                    yield 'C11.func.wf', dict(shape=shape, fam=fam, r=2, seed=15, kind=kind, m=2 + len(fam) % 4)
+        # exactly-zero tensors: every flag combination of truncate x accuracy x rank cap (mode size 1, d = 2, d = 4)
+        for fam in ZERO + ('cancel',):
+            for r in (2, 4) if big else (3,):
+                for (o, st, eg) in flags:
+                    for (e, rc) in (ecs if big else [ecs[j % 4], ecs[(j + 2) % 4]]):
+                        yield 'C11.truncate.zero_flags', dict(shape=shape, fam=fam, r=r, seed=1 + j % 3, e=e, rcap=rc,
+                                                              orth=o, use_stab=st, is_eigh=eg)
+                    j += 1
+    for (d, q) in ((2, 1), (2, 2), (2, 3), (3, 2), (4, 1)) + (((3, 3), (4, 2)) if big else ()):
+        for fam in EXTRA:
+            for r in (1, 3):
+                for (e, rc) in ((1e-12, 100), (1e-2, 100), (1e-12, 1), (0., 2)):
+                    yield 'C11.tt_to_qtt.wf', dict(d=d, q=q, fam=fam, r=r, seed=9, e=e, rcap=rc)
+        for fam in ZERO + ('cancel',):
+            for (e, rc) in ((1e-12, 100), (1e-2, 2), (0., 1), (1e3, 1e12)):
+                yield 'C11.tt_to_qtt.zero_flags', dict(d=d, q=q, fam=fam, r=2, seed=9, e=e, rcap=rc)
+    zlists = [['const0', 'const0'], ['gauss', 'neg_prev'], ['int', 'neg_prev', 'int', 'neg_prev'], ['zero_mid', 0., 'mul0'],
+              ['rank1', 'neg_prev', 'zero_all'], ['cancel', 'cancel', 0], ['pad0', 'neg_prev', 'tiny']]
+    for shape in (xshapes if big else xshapes[:5]):
+        for fams in zlists:
+            for (e, rc, tf) in ((1e-10, 1e12, 15), (1e-10, 1e12, 1), (1e-2, 2, 2), (10., 1, 1)):
+                yield 'C11.add_many.zero_flags', dict(shape=shape, fams=fams, r=2, seed=10, e=e, rcap=rc, trunc_freq=tf)
+    k = 0
+    for shape in ([3, 4], [3, 4, 3], [4, 1, 2], [2, 2, 2, 2]) + (([1, 3, 1], [5, 2, 3, 2]) if big else ()):
+        for kind in ('onehot', 'zero_slice', 'sign', 'axis'):
+            for stop in ('nswp0', 'nswp', 'm', 'e', 'vld'):
+                for (r0, a, b) in (((1, 1, 1), (2, 0, 0), (2, 0, 2), (1, 2, 2)) if big else ((1 + k % 2, k % 3 % 2, k % 3),)):
+                    yield 'C11.cross.degenerate', dict(shape=shape, kind=kind, stop=stop, r0=r0, dr_min=min(a, b),
+                                                       dr_max=b, seed=11 + k % 2, with_cache=(k % 2 == 1))
+                    k += 1
+    for shape in ([3, 4], [3, 4, 3], [4, 1, 2], [2, 2, 2, 2]):
+        for kind in ('zero_slice', 'sign', 'onehot', 'axis') if big else ('zero_slice', 'sign'):
+            for budget in (5, 9, 14, 20, 27, 35, 45, 60, 80) if big else (5, 12, 20, 30, 45, 70):
+                yield 'C11.cross.degenerate', dict(shape=shape, kind=kind, stop='m', r0=1, dr_min=1, dr_max=1 + budget % 2,
+                                                   seed=11, with_cache=(budget % 3 == 0), budget=budget)
+    for shape in ([3, 4], [4, 2, 3], [1, 3, 1], [2, 2, 2, 2]) + (([3, 4, 3], [4, 1, 2]) if big else ()):
+        for kind in ('zero', 'const', 'onehot', 'zero_slice'):
+            for variant in ('lamb_none', 'w', 'w_lamb', 'skip_cores', 'ad_lamb_none', 'ad_w', 'ad_r_add', 'ad_swap',
+                            'update_sol'):
+                for how in (('full', 'rep', 'sparse') if big else ('rep',)):
+                    yield 'C11.als.flags', dict(shape=shape, kind=kind, variant=variant, how=how, seed=12)
+    for shape in fit_shapes:
+        for c in (0., 2.5):
+            for order in (1, 2):
+                for r in (2, 5):
+                    for rel_noise in (0., 1e-3):
+                        yield 'C11.anova.class_flags', dict(shape=shape, c=c, order=order, r=r, rel_noise=rel_noise,
+                                                            how='rep', seed=13)
     # random part
     for rep in range(600 if big else 150):
         shape = shapes[int(g.integers(len(shapes)))]
